@@ -200,6 +200,9 @@ func (e *env) c02() {
 	n := e.c.Pick(1500, 40000)
 	games := e.c.Pick(150, 5000)
 	e.r.Rule = "valid positions x every legal move: rule-book view of the implementation's board after MakeMove vs model vs Rules.apply (placement, turn, rights, en-passant target iff a legal en-passant capture exists, both counters); plus directed en-passant geometry and games replayed through `position fen F moves …` + `fen`; non-trivial = move that is a capture, castling, promotion, double push, en passant, or changes castling rights; distinct by (FEN, move)"
+	var uciMoves []move.Move
+	var uciWant []string
+	var uciSpecOK []bool
 	check := func(fen string, b *board.Board, src string) {
 		legal := implutil.Legal(b)
 		if len(legal) == 0 {
@@ -228,12 +231,49 @@ func (e *env) c02() {
 			}
 			spec, modelDump, modelAbs := ans[4*i], ans[4*i+1], ans[4*i+2]
 			ops := []string{"fen " + fen, "mk " + strconv.Itoa(int(m))}
+			// the same single move through the UCI position command (every castling, en-passant and
+			// promotion move, a sample of the others): `position fen F moves m` + `fen`
+			special := m.Promo() != NoPiece || (piece == King && (d == 2 || d == -2)) || (piece == Pawn && captured == NoPiece && d%8 != 0)
+			if !b.InvalidPieceCount() && (special || e.c.Rng.IntN(8) == 0) {
+				r2 := b.MakeMove(m)
+				uciWant = append(uciWant, b.FEN())
+				b.UndoMove(m, r2)
+				uciMoves = append(uciMoves, m)
+				uciSpecOK = append(uciSpecOK, impl == spec)
+			}
 			if impl != spec {
 				e.r.Fail(common.Mismatch{Property: "C02", Kind: "failing-input", Ops: ops, Impl: impl, Model: modelAbs, Spec: spec,
 					Note: "successor differs from Rules.apply; before: " + before})
 			} else if implDump != modelDump {
 				e.r.Fail(common.Mismatch{Property: "C02", Kind: "broken-correspondence", Ops: ops, Impl: implDump, Model: modelDump, Spec: spec})
 			}
+		}
+		if len(uciMoves) > 0 {
+			var sb strings.Builder
+			for _, m := range uciMoves {
+				sb.WriteString("position fen " + fen + " moves " + m.String() + "\nfen\n")
+			}
+			sb.WriteString("quit\n")
+			var out, errb bytes.Buffer
+			uci.NewDriver(uci.WithInput(strings.NewReader(sb.String())), uci.WithOutput(&out), uci.WithError(&errb)).Run()
+			got := strings.Split(strings.TrimSpace(out.String()), "\n")
+			for i, m := range uciMoves {
+				e.r.Evaluations++
+				e.r.Count("uci-single-move", 1)
+				g := ""
+				if i < len(got) {
+					g = strings.TrimSpace(got[i])
+				}
+				if g != uciWant[i] {
+					kind := "broken-correspondence"
+					if uciSpecOK[i] {
+						kind = "failing-input" // the library successor equals the rule book's, the UCI path does not produce it
+					}
+					e.r.Fail(common.Mismatch{Property: "C02", Kind: kind, Ops: []string{"position fen " + fen + " moves " + m.String(), "fen"},
+						Impl: g, Spec: uciWant[i], Note: "UCI position command with a one-move list does not install the rule-book successor; stderr: " + errb.String()})
+				}
+			}
+			uciMoves, uciWant, uciSpecOK = uciMoves[:0], uciWant[:0], uciSpecOK[:0]
 		}
 		e.r.Count(src, 1)
 	}
